@@ -60,6 +60,7 @@ REQUIRED = ["histories", "operations", "open_log_checks", "index_ops", "negative
             "transform_checked", "tap_load", "symbolic_link_entries", "constructed_from_name_list",
             "eager_constructions", "eswc_populations", "eswc_populations_matched",
             "transform_outputs_without_source", "map_inside_map_checked",
+            "protocol_only_containers", "populations_of_more_than_1024_files",
             "audit_file_opens"]
 FLOOR = {"quick": 250, "thorough": 20000}
 SHARDS = {"quick": 8, "thorough": 16}
@@ -155,7 +156,11 @@ def check_history(ctx, case, tmp):
 
     rng = np.random.default_rng(case["seed"])
     root = os.path.join(tmp, "pop")
-    if case.get("large"):
+    if case.get("huge"):
+        # well over a thousand files (a whole-brain data set)
+        files = make_layout(rng, root, nfiles=int(rng.integers(1040, 1100)), small=True)
+        ctx.count("populations_of_more_than_1024_files")
+    elif case.get("large"):
         # more files than any plausible bounded cache: a second pass must still read nothing
         files = make_layout(rng, root, nfiles=int(rng.integers(140, 200)), small=True)
         ctx.count("large_populations")
@@ -776,7 +781,94 @@ class _Rebuild:
                     x=t.x() + self.dx, y=t.y().copy(), z=t.z().copy(), r=t.r().copy())
 
 
-KINDS = {"history": check_history, "eswc": check_eswc, "chain": check_chain, "populations": check_populations,
+class _HeadView:
+    """A user container offering the Trees protocol only (__getitem__ / __len__): the first k
+    trees of another container."""
+
+    def __init__(self, inner, k):
+        self.inner, self.k = inner, k
+
+    def __len__(self):
+        return self.k
+
+    def __getitem__(self, i):
+        if not -self.k <= i < self.k:
+            raise IndexError(i)
+        return self.inner[i if i >= 0 else i + self.k]
+
+
+class _KeyedTrees:
+    """Another protocol-only container: trees kept in a mapping from position to loader."""
+
+    def __init__(self, paths):
+        from swcgeom.core import Tree
+
+        self.load = {i: (lambda p=p: Tree.from_swc(p)) for i, p in enumerate(paths)}
+        self.got = {}
+
+    def __len__(self):
+        return len(self.load)
+
+    def __getitem__(self, i):
+        if i < 0:
+            i += len(self.load)
+        if i not in self.got:
+            self.got[i] = self.load[i]()   # (KeyError beyond the end, like a mapping)
+        return self.got[i]
+
+
+def check_protocol(ctx, case, tmp):
+    """Populations and chains over user containers that implement the Trees protocol
+    (__getitem__ and __len__, nothing else): indexing, iteration and chaining follow len()."""
+    from swcgeom.core import Population
+    from swcgeom.core.population import ChainTrees, LazyLoadingTrees
+
+    rng = np.random.default_rng(case["seed"])
+    root = os.path.join(tmp, "pop")
+    files = make_layout(rng, root, nfiles=int(rng.integers(3, 9)))
+    rels = sorted(files)
+    paths = [os.path.join(root, r) for r in rels]
+    k = int(rng.integers(1, len(rels)))
+    audit.start(tmp)
+    log = OpenLog(root)
+    with warnings.catch_warnings():
+        warnings.simplefilter("ignore")
+        head = Population(_HeadView(LazyLoadingTrees(paths), k), root=root)
+        keyed = Population(_KeyedTrees(paths), root=root)
+        ctx.count("protocol_only_containers")
+        for name, pop, want in (("a 'first k' view", head, rels[:k]), ("a mapping-backed container",
+                                                                         keyed, rels)):
+            if len(pop) != len(want):
+                return ctx.violation("length-wrong", f"population over {name}: len = {len(pop)}, "
+                                                     f"the container holds {len(want)}", case)
+            try:
+                got = list(pop)
+            except Exception as e:
+                return ctx.violation("iterate-length", f"iterating a population over {name} raised "
+                                                       f"{type(e).__name__}: {str(e)[:80]}", case)
+            if len(got) != len(want) or any(not _is_tree_of(t, root, r, files)
+                                            for t, r in zip(got, want)):
+                return ctx.violation("iterate-length", f"iterating a population over {name} of "
+                                                       f"{len(want)} trees yields {len(got)} trees",
+                                     case)
+            for i in range(-len(want), len(want)):
+                if not _is_tree_of(pop[i], root, want[i], files):
+                    return ctx.violation("wrong-tree", f"population over {name}: [{i}] is "
+                                                       f"{pop[i].source}", case)
+        opened = {r_ for r_ in log.counts() if r_ in files}
+        extra = opened - set(rels[:k]) - set(rels)  # (keyed loads everything it was asked for)
+        chain = ChainTrees([_HeadView(LazyLoadingTrees(paths), k), _KeyedTrees(paths[::-1])])
+        want = rels[:k] + rels[::-1]
+        got = list(chain)
+        if len(chain) != len(want) or len(got) != len(want) or any(
+                not _is_tree_of(t, root, r, files) for t, r in zip(got, want)):
+            return ctx.violation("chain-iteration", f"a chain over two protocol-only containers of "
+                                                    f"{k} and {len(rels)} trees yields {len(got)} "
+                                                    f"trees / the wrong ones", case)
+    audit.stop()
+
+
+KINDS = {"history": check_history, "eswc": check_eswc, "protocol": check_protocol, "chain": check_chain, "populations": check_populations,
          "map": check_map, "transform": check_transform}
 
 
@@ -806,6 +898,8 @@ def run(ctx):
                     case["ctor"] = "list-lazy" if k % 20 == 1 else "list-eager"
                 if k % 40 == 23:
                     case = {"kind": "eswc", "seed": seed}
+                if k % 40 == 22:
+                    case = {"kind": "protocol", "seed": seed}
             elif u < 8:
                 case = {"kind": "chain", "seed": seed,
                         "form": str(rng.choice(["list", "generator", "nested"]))}
@@ -818,6 +912,11 @@ def run(ctx):
         for j in range(2 if ctx.quick else 6):
             case = {"kind": "map", "seed": int(rng.integers(0, 2**31 - 1)), "verbose": bool(j % 2)}
             ctx.case(case, klass="map")
+            execute(ctx, case)
+        if ctx.shard == 5 % ctx.nshards or not ctx.quick:
+            case = {"kind": "history", "seed": int(rng.integers(0, 2**31 - 1)), "nops": 4,
+                    "large": True, "huge": True}
+            ctx.case(case, klass="history-huge")
             execute(ctx, case)
         if ctx.shard % 4 == 0:
             case = {"kind": "map", "seed": int(rng.integers(0, 2**31 - 1)), "nested": True}
